@@ -150,7 +150,13 @@ defjvp(
 
 # ----- Trickier grads -----
 defjvp(anp.kron, "same", "same")
-defjvp(anp.diff, "same")
+def fwd_grad_diff(g, ans, a, n=1, axis=-1, **kwargs):
+    # prepend/append are constants: their tangent is zero
+    kwargs = {k: anp.zeros_like(v) for k, v in kwargs.items()}
+    return anp.diff(g, n, axis, **kwargs)
+
+
+defjvp(anp.diff, fwd_grad_diff)
 defjvp(anp.gradient, "same")
 defjvp(anp.repeat, "same")
 defjvp(anp.tile, "same")
